@@ -12,7 +12,7 @@ from ..symex import F, mask
 from .c03 import tobv
 
 BOUNDS = ('all data bit patterns; run-time index vectors: every vector with entries < n; extract_pair: every i < n; compress/expand: every mask; '
-          '(masks of batches with more than 16 lanes: symbolic inside each aligned 16-lane window with an all-0 background (quick) / all-0 and all-1 backgrounds (thorough); thorough: fully symbolic up to 32 lanes); compile-time patterns: n=2 all, n=4 structured + random (thorough: all 256), n>=8 identity, reverse, broadcasts, rotations, pair/half swaps, '
+          '(masks of batches with more than 16 lanes: symbolic inside the first and the last aligned 16-lane window with an all-0 background (quick; every window: thorough) / all-0 and all-1 backgrounds (thorough); thorough: fully symbolic up to 32 lanes); compile-time patterns: n=2 all, n=4 structured + random (thorough: all 256), n>=8 identity, reverse, broadcasts, rotations, pair/half swaps, '
           'lo/hi duplication, zip/unzip, in-quarter reverse, cross-lane and half-mixing patterns + R seeded random masks (R=8 quick / 48 thorough), '
           'same for two-input shuffles; slide byte counts / rotate counts / insert positions: all (n<=8 or thorough) or a boundary subset. '
           'quick tier, batches of more than 16 lanes: extract_pair / compress / expand are proved for the result lanes at the register and 128-bit boundaries + 6 seeded lanes (all lanes: thorough). '
